@@ -4,7 +4,7 @@
    token stream from the real implementation. *)
 From Coq Require Import String Ascii.
 From Radius Require Import Base.Bytes Base.Guard Base.Res Gen.Consts
-  Model.Attrs Model.Packet Model.Passwords Model.Codecs Model.Client Model.Exchange Model.Dict Model.Dispatch Spec.C06 Model.Shutdown Model.ShutdownSched Spec.C05 Spec.C10 Spec.C09 Spec.C01 Spec.C03 Spec.C04 Spec.C11.
+  Model.Attrs Model.Packet Model.Passwords Model.Codecs Model.Client Model.Exchange Model.Dict Model.DictMerge Model.Dispatch Spec.C06 Model.Shutdown Model.ShutdownSched Spec.C05 Spec.C10 Spec.C09 Spec.C01 Spec.C03 Spec.C04 Spec.C11.
 From Radius Require Import Crypto.MD5.
 Open Scope list_scope.
 Open Scope nat_scope.
@@ -372,6 +372,38 @@ Definition dispatch_dict (name : bytes) (bs : list bytes) (zs : list Z) : option
   else if name_is name "m.lines" then Some (flat_map (fun f => [TB f]) (scan_lines (b1 bs)))
   else None.
 
+(* ---- C20 ---- *)
+Fixpoint load_all (h : heap) (texts : list bytes) : option (heap * list pdict) :=
+  match texts with
+  | [] => Some (h, [])
+  | t :: r =>
+    match fst (parse_root false (fun _ => None) 3 [100%N] t) with
+    | POk d => let '(h1, pd) := load h d in
+               match load_all h1 r with Some (h2, ps) => Some (h2, pd :: ps) | None => None end
+    | _ => None
+    end
+  end.
+Fixpoint chain (legacy : bool) (h : heap) (acc : pdict) (ds : list pdict) : res (heap * pdict) :=
+  match ds with
+  | [] => Ok (h, acc)
+  | d :: r => match merge legacy h acc d with
+              | Ok (h', acc') => chain legacy h' acc' r
+              | Err e => Err e | Panic => Panic | OutOfFuel => OutOfFuel
+              end
+  end.
+Definition dispatch_merge (name : bytes) (bs : list bytes) (zs : list Z) : option (list tok) :=
+  if name_is name "m.merge" || name_is name "s.merge" then
+    match load_all [] bs with
+    | Some (h, d :: ds) =>
+      match chain false h d ds with
+      | Ok (h', r) => Some (TI 0 :: t_dict (view h' r) ++ flat_map (fun x => t_dict (view h' x)) (d :: ds))
+      | Err e => Some [TI 1]
+      | _ => Some [TI 2]
+      end
+    | _ => Some [TI (-93)]
+    end
+  else None.
+
 Definition dispatch (name : bytes) (bs : list bytes) (zs : list Z) : list tok :=
   if name_is name "m.attrs_run" then run_attrs false bs zs
   else if name_is name "s.attrs_run" then run_attrs true bs zs
@@ -384,7 +416,8 @@ Definition dispatch (name : bytes) (bs : list bytes) (zs : list Z) : list tok :=
   match dispatch_c06 name bs zs with Some t => t | None =>
   match dispatch_c08 name bs zs with Some t => t | None =>
   match dispatch_dict name bs zs with Some t => t | None =>
-  [TI (-97)] end end end end end end end end.
+  match dispatch_merge name bs zs with Some t => t | None =>
+  [TI (-97)] end end end end end end end end end.
 
 Require Extraction.
 Require Import ExtrOcamlBasic.
